@@ -179,6 +179,11 @@ func (c *shardedMap) ExpireAll(ctx context.Context) {
 		b.Unlock()
 	}
 
+	if cnt > 0 {
+		// Entries have expirations now, delete expired job has to check them even with UnlimitedTTL.
+		atomic.AddInt64(&c.t.expirationsSet, 1)
+	}
+
 	c.t.NotifyExpiredAll(ctx, start, cnt)
 }
 
